@@ -11,6 +11,14 @@ Every case drives the REAL `ShearElasticModulusPhononContribution(strain, key)`:
     subclass) is used,
   * CORRESPONDENCE: the same inputs (including numpy's own eigen-decomposition) go to the Lean model
     (`c03.keys`, `c03.target`, `c03.strain_rotated`, `c03.rotate`).
+Streams added with the translator tie of the glue (tools/gens/shear_src.py) for what that tie showed to be untested:
+  * `stiff`: stiff tensors with small couplings (C11 = 320 next to C14 = 2e-3, couplings log-uniform over 1e-6 … 1e-2), as a Python
+    float, a vector and a (T,V)-shaped array per dictionary entry — a clean-up of the result with a RELATIVE threshold
+    (`numpy.isclose(E_rot, E_known)`) zeroes exactly these; the oracle tolerance stays relative to the tensor scale (1e-10·320),
+  * `cross13`: tensors whose ONLY non-zero rotated component is the cross modulus c'(1′1′3′3′) of the frame of the key (built from
+    the harness's own eigh of the harness's own unit strain) — a rotated energy that drops that pair returns 0 instead of the component,
+  * `unequal`: strongly unequal strain fractions on every key, so that diag(Tᵀ·diag(e)·T) ≠ diag(T·diag(e)·Tᵀ) whenever T∘T is not symmetric,
+  with counts of the discriminating cases in `res.distribution` (`stiff_small_target`, `cross13_three_nonzero`, `sr_discriminating`, shapes).
 """
 from __future__ import annotations
 
@@ -104,23 +112,38 @@ def run_impl(payload):
     mk = list(s.get_modulus_keys())
     mkr = list(s.get_modulus_keys_rotated())
     drop = payload.get("drop")
-    s.modulus = {q: C[q.s[0] - 1, q.s[1] - 1, q.s[2] - 1, q.s[3] - 1].copy() for q in mk}
-    s.modulus_rotated = {q: Cr[q.s[0] - 1, q.s[1] - 1, q.s[2] - 1, q.s[3] - 1].copy() for q in mkr}
+    shape = payload.get("shape")                       # None: vector of cells; "scalar": Python floats; [nT, nV]: (T,V)-shaped arrays
+    def shaped(a):
+        if shape == "scalar": return float(a[0])
+        if isinstance(shape, list): return a.reshape(shape).copy()
+        return a.copy()
+    s.modulus = {q: shaped(C[q.s[0] - 1, q.s[1] - 1, q.s[2] - 1, q.s[3] - 1]) for q in mk}
+    s.modulus_rotated = {q: shaped(Cr[q.s[0] - 1, q.s[1] - 1, q.s[2] - 1, q.s[3] - 1]) for q in mkr}
     if drop == "orig" and s.modulus:
         s.modulus.pop(next(iter(s.modulus)))
     if drop == "rot" and s.modulus_rotated:
         s.modulus_rotated.pop(next(iter(s.modulus_rotated)))
     try:
-        val = numpy.broadcast_to(numpy.asarray(s.get_target_elastic_modulus(), dtype=float), (c21.shape[1],)).copy()
+        raw = numpy.asarray(s.get_target_elastic_modulus(), dtype=float)
+        val = numpy.broadcast_to(raw.reshape(-1) if raw.ndim > 1 else raw, (c21.shape[1],)).copy()
         err = None
     except Exception as ex:   # KeyError for a dropped entry
         val, err = None, type(ex).__name__
     try:
-        e_orig = numpy.broadcast_to(numpy.asarray(s.fictitious_strain_energy, dtype=float), (c21.shape[1],)).copy()
-        e_rot = numpy.broadcast_to(numpy.asarray(s.fictitious_strain_energy_rotated, dtype=float), (c21.shape[1],)).copy()
+        flat = lambda a: a.reshape(-1) if a.ndim > 1 else a
+        e_orig = numpy.broadcast_to(flat(numpy.asarray(s.fictitious_strain_energy, dtype=float)), (c21.shape[1],)).copy()
+        e_rot = numpy.broadcast_to(flat(numpy.asarray(s.fictitious_strain_energy_rotated, dtype=float)), (c21.shape[1],)).copy()
     except Exception:
         e_orig = e_rot = None
-    return {"obj": s, "k": k, "e": e, "T": T, "L": L, "C": C, "Cr": Cr, "mk": mk, "mkr": mkr, "val": val, "err": err,
+    values = None
+    if err is None and not drop:
+        try:
+            flat2 = lambda a: numpy.broadcast_to(a.reshape(-1) if a.ndim > 1 else a, (c21.shape[1],)).copy()
+            values = {"value_isothermal": flat2(numpy.asarray(s.value_isothermal, dtype=float)),
+                      "value_adiabatic": flat2(numpy.asarray(s.value_adiabatic, dtype=float))}
+        except Exception:
+            values = {"value_isothermal": None, "value_adiabatic": None}
+    return {"obj": s, "k": k, "e": e, "T": T, "L": L, "C": C, "Cr": Cr, "mk": mk, "mkr": mkr, "val": val, "err": err, "values": values,
             "e_orig": e_orig, "e_rot": e_rot, "sr": numpy.array(s.strain_rotated, dtype=float),
             "modulus": s.modulus, "modulus_rotated": s.modulus_rotated, "mult": int(k.multiplicity)}
 
@@ -173,6 +196,12 @@ def oracle(payload, impl=None):
             out.append(("shear solver does not return the tensor component",
                         {"cell": cell, "value": float(impl["val"][cell]), "max_abs_err": float(numpy.max(err))},
                         {"component": float(expected[cell]), "tol": ORACLE_TOL * scale}, site + ":exact"))
+    # value_isothermal / value_adiabatic: the same component, nothing applied on the way
+    if impl.get("values") is not None:
+        for name, v in impl["values"].items():
+            if v is None or not numpy.all(numpy.isfinite(v)) or float(numpy.max(numpy.abs(v - expected))) > ORACLE_TOL * scale:
+                out.append((f"{name} is not the tensor component", None if v is None else v.tolist(), expected.tolist(), site + ":value-props"))
+                break
     # strain_rotated = diag(Tᵀ diag(e) T) per row, trace preserved
     direct = numpy.einsum("ia,vi,ia->va", T, strain, T)
     sr = impl["sr"]
@@ -199,7 +228,7 @@ def oracle(payload, impl=None):
 
 
 def dict_wire(d):
-    return [[int(q.v[0]), int(q.v[1]), enc(numpy.asarray(v, dtype=float))] for q, v in d.items()]
+    return [[int(q.v[0]), int(q.v[1]), enc(numpy.asarray(v, dtype=float).reshape(-1))] for q, v in d.items()]
 
 
 def model_ops(payload, impl):
@@ -220,7 +249,8 @@ def compare(payload, impl, answers, res: Result):
     keys_m, tgt_m, sr_m, rot_m = answers
     c21 = numpy.array(payload["c21"], dtype=float)
     scale = max(1.0, float(numpy.max(numpy.abs(c21))))
-    short = {"key": payload["key"], "variant": payload["variant"], "strain": payload["strain"], "drop": payload.get("drop")}
+    short = {"key": payload["key"], "variant": payload["variant"], "strain": payload["strain"], "drop": payload.get("drop"),
+             "shape": payload.get("shape"), "stream": payload.get("stream")}
     # keys (ordered), fictitious strain, multiplicity
     impl_keys = {"fict": impl["e"].tolist(), "orig": [vkey(q) for q in impl["mk"]], "rot": [vkey(q) for q in impl["mkr"]],
                  "mult": impl["mult"]}
@@ -288,6 +318,52 @@ def gen_cells(rng, nrand):
     return numpy.vstack([basis, rand])                                   # (ncells, 21)
 
 
+def own_frame(key):
+    """harness-own eigh of the harness-own unit strain of the key (NOT the class's attributes)"""
+    e = numpy.zeros((3, 3))
+    for (i, j) in (STD[key[0]], STD[key[1]]):
+        e[i - 1, j - 1] = 1; e[j - 1, i - 1] = 1
+    lam, T = numpy.linalg.eigh(e)
+    return e, lam, T
+
+
+def c21_of(C4):
+    """canonical 21 values of a (3,3,3,3) tensor that has the minor and major symmetries"""
+    return numpy.array([C4[STD[a][0] - 1, STD[a][1] - 1, STD[b][0] - 1, STD[b][1] - 1] for (a, b) in KEYS21])
+
+
+def gen_stiff_cells(rng, n, literal=True):
+    """stiff diagonal / off-diagonal block, SMALL shear-axial and shear-shear couplings"""
+    out = []
+    for m in range(n):
+        c = numpy.zeros(21)
+        for (a, b) in KEYS21:
+            if a == b and a <= 3: v = rng.uniform(250.0, 400.0)
+            elif a == b: v = rng.uniform(80.0, 150.0)
+            elif b <= 3: v = rng.uniform(80.0, 150.0)
+            else: v = float(rng.choice([-1.0, 1.0])) * 10.0 ** rng.uniform(-6.0, -2.0)
+            c[KIDX[(a, b)]] = v
+        if literal and m == 0:
+            c[KIDX[(1, 1)]] = 320.0
+            for d in (4, 5, 6): c[KIDX[(d, d)]] = 150.0
+            for (a, b) in KEYS21:
+                if b >= 4 and a != b: c[KIDX[(a, b)]] = 2e-3
+        out.append(c)
+    return numpy.array(out)
+
+
+def gen_cross13_cells(key, rng, n):
+    """tensors whose rotated components in the frame of `key` vanish except c'(1'1'3'3') (= g/2): C = g·sym(t1 t1ᵀ ⊗ t3 t3ᵀ)"""
+    _, _, T = own_frame(key)
+    A, B = numpy.outer(T[:, 0], T[:, 0]), numpy.outer(T[:, 2], T[:, 2])
+    C4 = 0.5 * (numpy.einsum("ij,kl->ijkl", A, B) + numpy.einsum("ij,kl->ijkl", B, A))
+    g = numpy.concatenate([[1.0], 10.0 ** rng.uniform(-2, 3, size=n - 1) * rng.choice([-1.0, 1.0], size=n - 1)])
+    return g[:, None] * c21_of(C4)[None, :]
+
+
+UNEQUAL_ROWS = [[0.7, 0.2, 0.1], [0.1, 0.2, 0.7], [0.05, 0.9, 0.05]]
+
+
 def gen_variant(rng, which):
     if which == 0:
         return {"kind": "own"}
@@ -311,6 +387,22 @@ def gen_cases(ctx: Ctx, per_key: int):
             for which in ((0, 1, 2) if n < 2 else (int(rng.integers(0, 3)),)):
                 cases.append({"key": list(key), "strain": strain.tolist(), "c21": cells.tolist(),
                               "variant": gen_variant(rng, which)})
+    # stiff tensors with small couplings, in the three shapes a dictionary entry can have
+    reps = max(1, per_key // 15)
+    for key in SHEAR15 * reps:
+        for shape in ("scalar", None, [2, 3]):
+            ncell = 1 if shape == "scalar" else 6
+            cases.append({"key": list(key), "strain": gen_strain(rng, 2).tolist(),
+                          "c21": gen_stiff_cells(rng, ncell).tolist(),
+                          "variant": {"kind": "own"}, "shape": shape, "stream": "stiff"})
+    # only the (1',3') cross modulus of the rotated frame is non-zero
+    for key in SHEAR15 * reps:
+        cases.append({"key": list(key), "strain": gen_strain(rng, 1).tolist(), "c21": gen_cross13_cells(key, rng, 3).tolist(),
+                      "variant": gen_variant(rng, int(rng.integers(0, 3))), "stream": "cross13"})
+    # strongly unequal strain fractions on every key
+    for key in SHEAR15 * reps:
+        cases.append({"key": list(key), "strain": UNEQUAL_ROWS, "c21": gen_cells(rng, 2).tolist(),
+                      "variant": {"kind": "own"}, "stream": "unequal"})
     # malformed stream: a needed dictionary entry is missing (KeyError in the code, "error" in the model)
     for key in SHEAR15:
         for drop in ("orig", "rot"):
@@ -319,6 +411,36 @@ def gen_cases(ctx: Ctx, per_key: int):
             cases.append({"key": list(key), "strain": gen_strain(rng, 2).tolist(), "c21": gen_cells(rng, 1).tolist(),
                           "variant": {"kind": "own"}, "drop": drop})
     return cases
+
+
+def count_discriminating(p, impl, dist):
+    """how many evaluated cases can tell the mutants the glue tie is about from the real code (measured, per run)"""
+    if p.get("drop"):
+        return
+    def bump(k, n=1): dist[k] = dist.get(k, 0) + n
+    bump("stream:" + (p.get("stream") or "base"))
+    sh = p.get("shape")
+    bump("shape:" + ("vector" if sh is None else "scalar" if sh == "scalar" else "TV"))
+    c21 = numpy.array(p["c21"], dtype=float)
+    scale = max(1.0, float(numpy.max(numpy.abs(c21))))
+    i, j = STD[p["key"][0]]; k, l = STD[p["key"][1]]
+    tgt = numpy.abs(impl["C"][i - 1, j - 1, k - 1, l - 1])
+    # a relative clean-up (rtol 1e-5 of the known energy) would zero the difference, the oracle would see it
+    if impl["e_orig"] is not None and impl["val"] is not None:
+        diff = numpy.abs(impl["e_rot"] - impl["e_orig"])
+        bite = (diff <= 1e-8 + 1e-5 * numpy.abs(impl["e_orig"])) & (tgt > 10 * ORACLE_TOL * scale)
+        if bool(numpy.any(bite)): bump("stiff_small_target")
+    # three non-zero eigenvalues and a non-zero (1',3') cross contribution to the rotated energy
+    L, Cr = impl["L"], impl["Cr"]
+    if bool(numpy.all(numpy.abs(L) > 1e-8)) and float(numpy.max(numpy.abs(Cr[0, 0, 2, 2] * L[0] * L[2]))) > 1e-6 * scale:
+        bump("cross13_three_nonzero")
+    # diag(Tᵀ D T) differs from diag(T D Tᵀ) for this strain
+    T, strain = impl["T"], numpy.array(p["strain"], dtype=float)
+    a = numpy.einsum("ia,vi,ia->va", T, strain, T); b = numpy.einsum("ai,vi,ai->va", T, strain, T)
+    if float(numpy.max(numpy.abs(a - b))) > 1e-3 * float(numpy.max(numpy.abs(strain))):
+        bump("sr_discriminating")
+    if float(numpy.max(numpy.abs(T * T - (T * T).T))) > 1e-6:
+        bump("T2_not_symmetric")
 
 
 def evaluate(ctx: Ctx, cases, res: Result, with_model=True):
@@ -336,6 +458,7 @@ def evaluate(ctx: Ctx, cases, res: Result, with_model=True):
         res.distribution["variants"][kind] = res.distribution["variants"].get(kind, 0) + 1
         res.distribution["rows"][str(len(p["strain"]))] = res.distribution["rows"].get(str(len(p["strain"])), 0) + 1
         res.distribution["cells"] += len(p["c21"])
+        count_discriminating(p, impl, res.distribution)
         if with_model:
             res.traces_validated += compare(p, impl, answers[4 * n: 4 * n + 4], res)
         for what, obs, exp, site in oracle(p, impl):
@@ -426,7 +549,10 @@ def run(ctx: Ctx) -> Result:
     res.rule = ("case = (shear key, strain field of 1-4 positive rows, eigenbasis variant own/sign-flipped/column-permuted, vector of "
                 "tensors = 21 basis tensors + 2-5 random tensors) run through the real class; all 15 keys in every run; distinct = "
                 "distinct (key, variant, strain); non-trivial = the target component is non-zero in some cell and the rotated energy "
-                "is non-zero; malformed stream (a missing dictionary entry) counted separately")
+                "is non-zero; malformed stream (a missing dictionary entry) counted separately; added streams: stiff tensors with "
+                "small couplings as float / vector / (T,V) array, tensors with only the (1',3') rotated cross modulus, strongly unequal "
+                "strain fractions (the numbers of cases that discriminate a relative clean-up, a dropped (1',3') pair and a transposed "
+                "strain_rotated are measured into the distribution)")
     for p in ctx.corpus():
         evaluate(ctx, [p["input"] if "input" in p else p], res)
     per_key = 120 if ctx.thorough() else 5
